@@ -11,13 +11,15 @@ passed is `state + 100·accessor`). Candidate objects are identified by a number
 what accessors and the body read, printed in `log` — starts equal to it and is overwritten by each world of `hist`
 before the same query object is evaluated again; the evaluations are printed joined by ` ;; `.
 
-`params` are the parameters the user can bind (default value after the name). For `method` the underlying function
+`params` are the parameters the user can bind (default value after the name, then `kw` for a keyword-only
+parameter: `(b kw)`, `(c 7 kw)`). A call Python itself rejects has `spec=invalid`: the property then demands the
+`TypeError` at the call (`exc:TypeError`) or from every evaluation (`S exc:TypeError`). For `method` the underlying function
 has `self` in front and the wrapper receives the receiver (value 0) as first positional argument; the driver adds
 both, so the model sees exactly what `symbolic_function.wrapper` sees. The body's result is
 `(salt + Σ (j+1)·value_j) mod modulus` over the parameter values the body receives; truth = non-zero.
 
 Output: `model=` (code as it is: `codeQuirks`), `model_fixed=` (F-C12-1 repaired), `model_f2=` (F-C12-2 repaired),
-`model_f12=` (both repaired), `spec=`, `trig=` (ids of the still-open findings whose trigger the input satisfies).
+`model_f3=` (F-C12-3 repaired: the call is bound as written first), `model_f12=` (all repaired), `spec=`, `trig=` (ids of the still-open findings whose trigger the input satisfies).
 -/
 namespace KrroodVerif.Drive.C12
 open KrroodVerif.Pred
@@ -25,7 +27,7 @@ open KrroodVerif.Pred
 /-- The quirk setting of the code as it is at this commit of /verif (`model=`). When a finding is recorded as
 `fixed:` switch its flag off here in the same commit: `model=` then is the repaired model and the finding's id is
 no longer offered as an excuse in `trig=`. -/
-def codeQuirks : Quirks := { symFnIgnoresFirst := false, childVarsIndependent := true }
+def codeQuirks : Quirks := { symFnIgnoresFirst := false, childVarsIndependent := true, acceptsRejected := false }
 
 def parseArg : Sexp → Option Arg
   | .list [.atom "l", v] => v.asNat?.map Arg.lit
@@ -35,8 +37,10 @@ def parseArg : Sexp → Option Arg
   | _ => none
 
 def parseParam : Sexp → Option Param
-  | .list [.atom n] => some ⟨n, none⟩
-  | .list [.atom n, d] => d.asNat?.map (fun d => ⟨n, some d⟩)
+  | .list [.atom n] => some ⟨n, none, false⟩
+  | .list [.atom n, .atom "kw"] => some ⟨n, none, true⟩
+  | .list [.atom n, d, .atom "kw"] => d.asNat?.map (fun d => ⟨n, some d, true⟩)
+  | .list [.atom n, d] => d.asNat?.map (fun d => ⟨n, some d, false⟩)
   | _ => none
 
 def parseKw : Sexp → Option (String × Arg)
@@ -117,7 +121,7 @@ def run (s : Sexp) : String :=
         | _ => none
       let call : Call ← match kind with
         | "fn" => some ⟨.symFn, params, pos, kw⟩
-        | "method" => some ⟨.symFn, ⟨"self", none⟩ :: params, .lit 0 :: pos, kw⟩
+        | "method" => some ⟨.symFn, ⟨"self", none, false⟩ :: params, .lit 0 :: pos, kw⟩
         | "pred" => some ⟨.pred, params, pos, kw⟩
         | _ => none
       let knobs ← ((Sexp.field? items "knobs").getD []).mapM parseKnob
@@ -129,9 +133,11 @@ def run (s : Sexp) : String :=
       let sh := showHistory body
       let trig := (if codeQuirks.symFnIgnoresFirst && trigPositional call then ["F-C12-1"] else [])
         ++ (if codeQuirks.childVarsIndependent && trigShared x then ["F-C12-2"] else [])
+        ++ (if codeQuirks.acceptsRejected && trigRejected call then ["F-C12-3"] else [])
       pure (s!"model={sh (runHistory codeQuirks knobs x [] worlds)}"
         ++ s!"\tmodel_fixed={sh (runHistory { codeQuirks with symFnIgnoresFirst := false } knobs x [] worlds)}"
         ++ s!"\tmodel_f2={sh (runHistory { codeQuirks with childVarsIndependent := false } knobs x [] worlds)}"
+        ++ s!"\tmodel_f3={sh (runHistory { codeQuirks with acceptsRejected := false } knobs x [] worlds)}"
         ++ s!"\tmodel_f12={sh (runHistory Quirks.none knobs x [] worlds)}"
         ++ s!"\tspec={sh (specHistory x worlds)}\ttrig={",".intercalate trig}")
     r.getD "error=bad-case"
